@@ -167,6 +167,8 @@ def main():
             "other_property_violations_seen": outcome.other,
             "known_findings_matched": verdict["known"],
             "platform": core.go_info(),
+            "library_hooks": "on (go build -tags verif)" if core.HOOKS else "OFF: /repo does not compile with -tags verif, "
+                             "harness built against the exported API only: " + core.HOOKS_ERROR[-300:],
         },
         "assumptions": spec.assumptions,
         "wall_s": round(time.time() - t0, 2),
